@@ -100,6 +100,16 @@ Theorem C19_consolidating_a_group_is_safe : forall (final : fname -> bool) f t n
   SafePlan skey final (fun p c => p = shard_name c) shard_recs f (PWrite t (shard_name m) [m] :: map PUnlink dels).
 Proof. exact consolidate_group_safe. Qed.
 
+
+(* chaining groups (with C19_plans_compose): after a group's plan the merged shard stands under its name, and every other file
+   of the directory that is neither the temporary file nor one of the unlinked inputs is untouched -- so the shards of the
+   later groups are still where the next group's premises expect them *)
+Theorem C19_group_plan_frame : forall (final : fname -> bool) f t mname m dels, final t = false ->
+  let f' := apply_effs f (plan_effs (PWrite t mname [m] :: map PUnlink dels)) in
+  (~ In mname dels -> flookup f' mname = Some m) /\
+  (forall q, q <> t -> q <> mname -> ~ In q dels -> flookup f' q = flookup f q).
+Proof. exact group_plan_frame. Qed.
+
 Print Assumptions C19_crash_at_any_point.
 Print Assumptions C19_group_write_before_delete.
 Print Assumptions C19_consolidation_plan_structure.
